@@ -20,6 +20,24 @@ BUILT = {
         "doing)."),
   design='DESIGN.md §4 C01',
   technique='deterministic simulation: scripted solver environment (Krylov adversary, numeric fault injection) with an independent-operator oracle'),
+ 'C05': dict(
+  text=("Control-plane simulation: the real multigrid recursion, parameter "
+        "object, smoothing dispatch, per-level direction adaptation, "
+        "restriction, prolongation and termination logic run against a "
+        "simulated data plane (recording no-op Gauss-Seidel kernels, "
+        "scripted fine-grid residual histories: decay, plateau, growth, NaN, "
+        "never converging; a stub Krylov driver calling the pre-conditioner "
+        "k times). The recorded visit history must equal, event by event, "
+        "that of a small executable reference model written from the "
+        "documentation. A second stratum runs everything for real on small "
+        "shapes against the same model. Seeded sampling of shapes 2..40 "
+        "(one direction up to 1024) and settings, not enumeration."),
+  note=("Trusted: the reference model's reading of the docstring (V/W/F "
+        "pictures, halving rule, pattern digits, 'compares with the last "
+        "value of the same cycle type' for stagnation). Sequential "
+        "state-machine simulation, not thread scheduling."),
+  design='DESIGN.md §4 C05',
+  technique='deterministic simulation of the solver control plane against a scripted data plane; refinement check against an executable reference model'),
  'C11': dict(
   text=("Seeded search over simulated executions of the real Simulation/"
         "process_map/io code on a simulated process pool (both back ends), "
